@@ -1667,6 +1667,10 @@ func (c *Compiler) compileFor(node *ast.For) error {
 	// Update continues to jump to the post statement
 	for _, pos := range loop.continuePos {
 		delta := continueDst - pos
+		if delta < 0 {
+			// A continue inside the post statement would have to jump backwards
+			return c.formatError("invalid continue statement in the post statement of a for loop", node.Token().StartPosition)
+		}
 		if delta > math.MaxUint16 {
 			return fmt.Errorf("compile error: loop code size exceeded limits")
 		}
